@@ -617,4 +617,109 @@ theorem symbNaive_ucols_list (n maxsuper : Nat) (cols : Nat → List Nat) (relax
     rw [hu] at hm ⊢
     exact sinv_ucols_sorted _ _ _ hinv _ (List.mem_reverse.mp hm)
 
+
+/-! ### all predicted rows are `< m` when the input's rows are and `n ≤ m` -/
+
+def RowsLt (m : Nat) (sns : List SN) : Prop := ∀ t ∈ sns, (∀ r ∈ t.rows, r < m) ∧ (∀ r ∈ t.expl, r < m)
+
+theorem foldl_union_mem (cols : Nat → List Nat) (is : List Nat) (acc : List Nat) (x : Nat)
+    (h : x ∈ is.foldl (fun acc i => union acc (cols i)) acc) : x ∈ acc ∨ ∃ i ∈ is, x ∈ cols i := by
+  induction is generalizing acc with
+  | nil => exact Or.inl h
+  | cons i is ih =>
+    rcases ih _ h with h | ⟨k, hk, hx⟩
+    · rcases (mem_union _ _ _).mp h with h | h
+      · exact Or.inl h
+      · exact Or.inr ⟨i, by simp, h⟩
+    · exact Or.inr ⟨k, by simp [hk], hx⟩
+
+theorem rowsLt_step (m n maxsuper : Nat) (cols : Nat → List Nat) (relaxEnd : Nat → Option Nat) (hnm : n ≤ m)
+    (hcols : ∀ j < n, ∀ r ∈ cols j, r < m) (j : Nat) (hj : j < n) (st : St) (h : RowsLt m st.sns) :
+    RowsLt m (step n maxsuper cols relaxEnd st j).sns := by
+  have hrelax : ∀ k, RowsLt m (relaxStep n cols j k st).sns := by
+    intro k t ht
+    rcases List.mem_cons.mp ht with rfl | ht
+    · have hall : ∀ r ∈ (seg j (max j (min k (n - 1)))).foldl (fun acc i => union acc (cols i)) [], r < m := by
+        intro r hr
+        rcases foldl_union_mem cols _ [] r hr with h0 | ⟨i, hi, hx⟩
+        · simp at h0
+        · have := (mem_seg _ _ _).mp hi
+          exact hcols i (by omega) r hx
+      exact ⟨hall, hall⟩
+    · exact h t ht
+  have hcol : RowsLt m (colStep maxsuper (cols j) j st).sns := by
+    have hsj : ∀ r ∈ j :: (reach st.sns (cols j)).filter (fun r => decide (j < r)), r < m := by
+      intro r hr
+      rcases List.mem_cons.mp hr with rfl | hr
+      · omega
+      · rcases mem_reach _ _ _ (List.mem_filter.mp hr).1 with hc | ⟨t, ht, he⟩
+        · exact hcols j hj r hc
+        · exact (h t ht).2 r he
+    unfold colStep
+    cases hs : st.sns with
+    | nil =>
+      intro t ht
+      have : t = _ := List.mem_singleton.mp ht
+      subst this
+      rw [hs] at hsj
+      exact ⟨hsj, hsj⟩
+    | cons u rest =>
+      rw [hs] at hsj h
+      simp only
+      split
+      · intro t ht
+        rcases List.mem_cons.mp ht with rfl | ht
+        · exact ⟨(h u (by simp)).1, hsj⟩
+        · exact h t (by simp [ht])
+      · intro t ht
+        rcases List.mem_cons.mp ht with rfl | ht
+        · exact ⟨hsj, hsj⟩
+        · exact h t ht
+  unfold step
+  cases hs : st.sns with
+  | nil =>
+    simp only
+    cases relaxEnd j with
+    | some k => exact hrelax k
+    | none => exact hcol
+  | cons t rest =>
+    simp only
+    split
+    · exact h
+    · cases relaxEnd j with
+      | some k => exact hrelax k
+      | none => exact hcol
+
+theorem rowsLt_run (m n maxsuper : Nat) (cols : Nat → List Nat) (relaxEnd : Nat → Option Nat) (hnm : n ≤ m)
+    (hcols : ∀ j < n, ∀ r ∈ cols j, r < m) : RowsLt m (run n maxsuper cols relaxEnd).sns := by
+  have : ∀ k ≤ n, RowsLt m ((List.range k).foldl (step n maxsuper cols relaxEnd) { sns := [], ucols := [] }).sns := by
+    intro k hk
+    induction k with
+    | zero => intro t ht; simp at ht
+    | succ k ih =>
+      rw [List.range_succ, List.foldl_append]
+      exact rowsLt_step m n maxsuper cols relaxEnd hnm hcols k (by omega) _ (ih (by omega))
+  exact this n (Nat.le_refl _)
+
+/-- **rows in range.**  If every row index of the input is `< m` and `n ≤ m`, every predicted row is `< m`. -/
+theorem symbNaive_rows_lt (m n maxsuper : Nat) (cols : Nat → List Nat) (relaxEnd : Nat → Option Nat) (hnm : n ≤ m)
+    (hcols : ∀ j < n, ∀ r ∈ cols j, r < m) :
+    let o := symbNaive n maxsuper cols relaxEnd
+    ∀ s < o.rows.length, ∀ r ∈ o.rows[s]!, r < m := by
+  intro o s hs r hr
+  have hch := run_achain n maxsuper cols relaxEnd
+  have hr' : o.rows = (run n maxsuper cols relaxEnd).sns.reverse.map rowList := rfl
+  have hs' : s < (run n maxsuper cols relaxEnd).sns.reverse.length := by rw [hr'] at hs; simpa using hs
+  obtain ⟨_, hl⟩ := achain_first_next _ _ _ hch s hs'
+  have hle := achain_le _ _ _ hch (s + 1) (by omega)
+  rw [hl] at hle
+  rw [hr', getElem!_map_of_lt _ _ _ hs'] at hr
+  generalize htdef : (run n maxsuper cols relaxEnd).sns.reverse[s]! = t at hr hle
+  have htm : t ∈ (run n maxsuper cols relaxEnd).sns := by
+    rw [← htdef]; exact List.mem_reverse.mp (getElem!_mem_of_lt _ _ hs')
+  unfold rowList at hr
+  rcases List.mem_append.mp hr with hr | hr
+  · have := (mem_seg _ _ _).mp hr; omega
+  · exact (rowsLt_run m n maxsuper cols relaxEnd hnm hcols t htm).1 r (List.mem_filter.mp hr).1
+
 end Slu.Symb
